@@ -189,8 +189,9 @@ def run(repo: Repo, chk: Check) -> None:
            what='a key of unknown kind is encoded')
     # contracts
     fc, uc = repo.func(f'{FORGE}.forge_contract'), repo.func(f'{FORGE}.unforge_contract')
-    for has_ep in (False, True):
-        data = Pat.const(b'\x01') + Pat.free('H', 20) + b'\x00' + (Pat.free('E', 5) if has_ep else Pat(()))
+    for ep_len in (0, 1, 2, 5):  # an entrypoint name may be a single character
+        has_ep = ep_len > 0
+        data = Pat.const(b'\x01') + Pat.free('H', 20) + b'\x00' + (Pat.free('E', ep_len) if has_ep else Pat(()))
         res = Interp(repo, _ContractReadHooks(rows), max_depth=1).run_function(uc, [data])
         ok = len(res) == 1 and res[0].outcome == 'return'
         v = res[0].value if ok else None
@@ -202,10 +203,10 @@ def run(repo: Repo, chk: Check) -> None:
             if ok:
                 inner = v.args[2].args[0]
                 inner = inner.args[0] if isinstance(inner, App) and inner.op == 'decode' else inner
-                ok = isinstance(inner, Pat) and inner.is_whole_free('E', 5)
+                ok = isinstance(inner, Pat) and inner.is_whole_free('E', ep_len)
         else:
             ok = ok and isinstance(v, App) and v.op.endswith('unforge_address') and v.args[0] == data
-        chk.ob('R-TEMPLATE', uc.qualname, ok, f'entrypoint={has_ep}', uc.loc, {'result': vrepr(v)},
+        chk.ob('R-TEMPLATE', uc.qualname, ok, f'entrypoint of {ep_len} byte(s)', uc.loc, {'result': vrepr(v)},
                what='contract bytes are not split as 22-byte address + utf-8 entrypoint joined with %')
     for nparts in (1, 2):
         for ep_default in ((False, True) if nparts == 2 else (False,)):
